@@ -59,6 +59,26 @@ pub struct Case {
     /// 256th or 65536th edit invalidates as much as the first
     #[serde(default)]
     pub extra_edits: u32,
+    /// how the interpreter came to be: 0 = `Interpreter::default()`, 1.. = handed over by the file loader
+    /// (`SourceFileAnalyzer::analyze(text).into_interpreter()`) for a file that holds no numbered line — what
+    /// `abasic -i empty.bas` gives the user to type the program into
+    #[serde(default)]
+    pub born: u8,
+    /// the run is started with a direct-mode `GOTO <first line>` instead of RUN (no RUN before the edit)
+    #[serde(default)]
+    pub start_by_goto: bool,
+}
+
+const LOADER_FILES: &[&str] = &["", "\n", "PRINT 1\n", "   \n\nREM nothing numbered\n", "\r\n"];
+
+fn new_sess(born: u8) -> Result<Sess, Violation> {
+    if born == 0 {
+        return Ok(Sess::new());
+    }
+    let text = LOADER_FILES[(born as usize - 1) % LOADER_FILES.len()].to_string();
+    crate::sess::guarded(move || abasic_core::SourceFileAnalyzer::analyze(text).into_interpreter())
+        .map(Sess::from_interpreter)
+        .map_err(|p| Violation::new("C11/panic", format!("panic@{p}"), format!("loading a file without numbered lines unwound: {p}")))
 }
 
 fn reply_texts(c: &ProgCase) -> Vec<String> {
@@ -67,11 +87,19 @@ fn reply_texts(c: &ProgCase) -> Vec<String> {
 
 /// run until the suspension point; returns the number of boundaries that existed if the program ended first
 fn suspend_at(s: &mut Sess, c: &ProgCase, k: u32, at_stop: Option<u32>, ctx: &mut Ctx) -> Result<(&'static str, u32), Violation> {
+    suspend_at_from(s, c, k, at_stop, ctx, false)
+}
+
+fn suspend_at_from(s: &mut Sess, c: &ProgCase, k: u32, at_stop: Option<u32>, ctx: &mut Ctx, by_goto: bool) -> Result<(&'static str, u32), Violation> {
     let replies = reply_texts(c);
     let mut ri = 0;
     let mut boundaries = 0u32;
     let mut stops = 0u32;
-    let mut pending = Some(Op::Line("RUN".into()));
+    let first = c.lines.iter().map(|l| l.num).min();
+    let mut pending = Some(Op::Line(match (by_goto, first) {
+        (true, Some(n)) => format!("GOTO {n}"),
+        _ => "RUN".into(),
+    }));
     loop {
         let op = match pending.take() {
             Some(op) => op,
@@ -170,12 +198,21 @@ fn edit_text(e: &Edit) -> String {
 
 fn one_placement(c: &Case, k: u32, at_stop: Option<u32>, ctx: &mut Ctx) -> Option<Violation> {
     let v = |class: &str, fp: String, detail: String| Some(Violation::new(&format!("C11/{class}"), fp, detail));
-    let mut s = Sess::new();
+    let mut s = match new_sess(c.born) {
+        Ok(s) => s,
+        Err(e) => return Some(e),
+    };
+    if c.born > 0 {
+        ctx.count("fault.interpreter_handed_over_by_file_loader");
+    }
+    if c.start_by_goto {
+        ctx.count("fault.run_started_by_direct_goto");
+    }
     if let Err(e) = enter_program(&mut s, &c.prog, "C11") {
         return Some(e);
     }
     s.apply(&Op::Seed(c.prog.seed));
-    let (how, _b) = match suspend_at(&mut s, &c.prog, k, at_stop, ctx) {
+    let (how, _b) = match suspend_at_from(&mut s, &c.prog, k, at_stop, ctx, c.start_by_goto) {
         Ok(x) => x,
         Err(e) => return Some(e),
     };
@@ -459,7 +496,7 @@ impl Prop for C11 {
     fn meta() -> Meta {
         Meta {
             level: "fault_enumeration",
-            rule: "Programs from the C03 grammar with GOSUB, FOR, DATA, DEF forced on (plus INPUT/STOP). The run is suspended (break at boundary k while running or awaiting input, at a STOP, after completion, after a failure), optionally an immediate statement that opens state from the prompt (FOR, nested FORs, READ), then ONE edit (sometimes followed by 1-4 or 255 / 256 / 257 / 511 / 512 / 65535 / 65536 further edits of a scratch line; sometimes the program is a single line that is deleted) (add a new line, replace an existing line incl. the ones holding the breakpoint / FOR / GOSUB return point / DATA / DEF, delete a line, or a rejected edit whose text cannot tokenize) and ONE probe (CONT — one time in three preceded by a host break that arrives while the interpreter is idle, as the CLI's CTRL-C channel can deliver it; then CONT may also be a no-op, but must not resume anything —, RETURN, NEXT v, PRINT FNW(3), READ Q$ : PRINT Q$, GOTO n surviving/deleted, PRINT v). Mode EveryBoundary (always in thorough, 1 in 5 in quick) places the suspension at EVERY boundary of the run in turn. Oracle after a successful edit: probe snapshot has no breakpoint/frames/loops/functions/data cursor while variables and arrays (content hash) are unchanged, and the probe command answers CAN'T CONTINUE / RETURN WITHOUT GOSUB / NEXT WITHOUT FOR / array default 0 / first DATA item of the edited program / UNDEF'D STATEMENT. After a rejected edit: snapshot identical and break+rejected edit+CONT continues exactly like the uninterrupted run. distinct_nontrivial = distinct (program, boundary, edit, probe) hashes among placements where the snapshot before the edit held at least one of frame/loop/data cursor/function/breakpoint.",
+            rule: "Programs from the C03 grammar with GOSUB, FOR, DATA, DEF forced on (plus INPUT/STOP). The run is suspended (break at boundary k while running or awaiting input, at a STOP, after completion, after a failure), optionally an immediate statement that opens state from the prompt (FOR, nested FORs, READ), then ONE edit (sometimes followed by 1-4 or 255 / 256 / 257 / 511 / 512 / 65535 / 65536 further edits of a scratch line; sometimes the program is a single line that is deleted) (add a new line, replace an existing line incl. the ones holding the breakpoint / FOR / GOSUB return point / DATA / DEF, delete a line, or a rejected edit whose text cannot tokenize) and ONE probe (CONT — one time in three preceded by a host break that arrives while the interpreter is idle, as the CLI's CTRL-C channel can deliver it; then CONT may also be a no-op, but must not resume anything —, RETURN, NEXT v, PRINT FNW(3), READ Q$ : PRINT Q$, GOTO n surviving/deleted, PRINT v). Mode EveryBoundary (always in thorough, 1 in 5 in quick) places the suspension at EVERY boundary of the run in turn. One case in eight works on an interpreter handed over by the file loader for a file without numbered lines (empty, blank, unnumbered text — what `abasic -i empty.bas` gives the user to type into) instead of a default-constructed one, and one in six starts the run with a direct-mode `GOTO <first line>` instead of RUN. Oracle after a successful edit: probe snapshot has no breakpoint/frames/loops/functions/data cursor while variables and arrays (content hash) are unchanged, and the probe command answers CAN'T CONTINUE / RETURN WITHOUT GOSUB / NEXT WITHOUT FOR / array default 0 / first DATA item of the edited program / UNDEF'D STATEMENT. After a rejected edit: snapshot identical and break+rejected edit+CONT continues exactly like the uninterrupted run. distinct_nontrivial = distinct (program, boundary, edit, probe) hashes among placements where the snapshot before the edit held at least one of frame/loop/data cursor/function/breakpoint.",
             real: &["abasic-core Interpreter (set_numbered_line and its five resets, CONT/RETURN/NEXT/READ/function lookup paths)"],
             stub: &["the host (suspension point, edit, probe)"],
             assumptions: &["edits that change nothing (deleting an absent line, re-entering identical text) are not generated: the statement is silent about them"],
@@ -477,6 +514,8 @@ impl Prop for C11 {
                 "fault.failed_edit",
                 "fault.delete_line",
                 "fault.idle_break_between_edit_and_CONT",
+                "fault.interpreter_handed_over_by_file_loader",
+                "fault.run_started_by_direct_goto",
             ],
         }
     }
@@ -591,7 +630,12 @@ impl Prop for C11 {
             }
         };
         let extra_edits = if matches!(suspend, Suspend::EveryBoundary) { extra_edits.min(512) } else { extra_edits };
-        let mut case = Case { prog, suspend, edit, probe, pre, extra_edits };
+        // swarm: how the interpreter was born and how the run was started (not for rejected edits, whose oracle
+        // compares with an uninterrupted RUN on a default interpreter)
+        let rejected = matches!(edit, Edit::Failed(_));
+        let born = if !rejected && rng.chance(1, 8) { 1 + rng.below(5) as u8 } else { 0 };
+        let start_by_goto = !rejected && rng.chance(1, 6);
+        let mut case = Case { prog, suspend, edit, probe, pre, extra_edits, born, start_by_goto };
         // the smallest program: one line; deleting it empties the program — and keeps what it stored
         if rng.chance(1, 40) {
             let num = 10 * (1 + rng.below(9));
